@@ -54,7 +54,10 @@ LEVEL_NOTE = ('Every step runs the implementation; the only model is the '
 VARIANTS = ('direct', 'range', 'two-sheets', 'name', 'range-blank', 'mirror')
 MULT = (2, 3, 5, 7, 11)
 CHANGE_VALUES = (0, 7)
-NAME_IDX = 1        # the defined name 'inp' is bound to the second cell
+# the defined name (a lower-case letter directly followed by a digit, like
+# fy21_rate) is bound to the second cell
+NAME = 'q1_inp'
+NAME_IDX = 1
 _TMP = None
 
 
@@ -90,7 +93,7 @@ def addr(i, variant):
 def ref_text(i, j, variant, n):
     """How cell i writes its reference to cell j."""
     if variant == 'name' and j == NAME_IDX:
-        return 'inp'
+        return NAME
     if variant == 'two-sheets':
         return '%s!B%d' % (sheet_of(j, variant), j + 1)
     return 'B%d' % (j + 1)
@@ -152,7 +155,7 @@ def build(code, n, variant):
                                                           code))
         with open(path, 'wb') as fp:
             fp.write(R.build([('Sheet1', cells)],
-                             {'inp': 'Sheet1!$B$%d' % (NAME_IDX + 1)}))
+                             {NAME: 'Sheet1!$B$%d' % (NAME_IDX + 1)}))
         import warnings
         with warnings.catch_warnings():
             warnings.simplefilter('ignore')
@@ -211,7 +214,7 @@ def focus_items(mask, n, variant):
     items = [addr(i, variant) for i in range(n) if mask >> i & 1]
     idx = [i for i in range(n) if mask >> i & 1]
     if variant == 'name' and mask >> n & 1:
-        items.append('inp')
+        items.append(NAME)
         idx.append(NAME_IDX)
     return items, sorted(set(idx))
 
@@ -287,8 +290,14 @@ def run_config(code, n, variant, mask, evaluated, ctx):
         compare('0')
         for s, oi in enumerate(history, 1):
             i, v = ops[oi]
-            lib.observe(ev.set_cell_value, addr(i, variant), v)
-            lib.observe(eve.set_cell_value, addr(i, variant), v)
+            # in the name variant the named input is changed THROUGH its name
+            # (when the extracted model knows the name at all: a focus that
+            # reaches the cell only by its address does not carry the name)
+            target = NAME if (variant == 'name' and i == NAME_IDX and
+                              NAME in ext.defined_names) \
+                else addr(i, variant)
+            lib.observe(ev.set_cell_value, target, v)
+            lib.observe(eve.set_cell_value, target, v)
             ctx.count('transitions')
             compare('%d:set(%d,%d)' % (s, i, v))
         lib.clear_caches()
